@@ -8,6 +8,7 @@ import (
 	"time"
 
 	"github.com/jig/lisp/env"
+	"github.com/jig/lisp/lib/call"
 	"github.com/jig/lisp/lib/concurrent"
 	"github.com/jig/lisp/types"
 	"github.com/jig/lisp/zverif/vcore"
@@ -47,6 +48,9 @@ var atomOps = []atomOp{
 	// an update function that keeps its rest-argument list (stores it in atom k): what it kept
 	// must stay what it was, whatever swap! does with its argument vector afterwards
 	{"swap!-keeps-rest-args", func(c int) string { return fmt.Sprintf("(swap! a (fn [x & more] (t! %d) (reset! k more) x) %d)", c, c) }, func(s atomSt, c, k int) (atomSt, string) { return s, iv(s.a) }, true},
+	// the update function is a Go builtin that calls a lisp function back (like update, apply, map do),
+	// and that callback reads the atom being swapped
+	{"swap!-builtin-calling-back", func(c int) string { return "(swap! a callf (fn [x] (+ x @a)))" }, func(s atomSt, c, k int) (atomSt, string) { s.a += s.a; return s, iv(s.a) }, false},
 	{"first-of-k", func(c int) string { return "(first @k)" }, func(s atomSt, c, k int) (atomSt, string) { return s, iv(s.k) }, false},
 }
 
@@ -194,6 +198,7 @@ func init() {
 			tier = t
 			base = lx.NewFullEnv()
 			tracer.Install(base)
+			c09InstallCallf(base)
 			if _, err, p := lx.Eval(nil, lx.MustRead(`(def failing (fn [x] (throw "no")))`), base); err != nil || p != nil {
 				panic("c09 prelude")
 			}
@@ -431,6 +436,13 @@ func init() {
 			Assumptions: []string{"unsynchronised accesses between scheduling points are not seen by the cooperative scheduler (see the race pass)", "an update function updating its own atom is excluded by the property"},
 			Families: []*vf.Family{fam},
 		}
+	})
+}
+
+// callf is a Go builtin that applies its second argument to its first (a higher-order builtin).
+func c09InstallCallf(base types.EnvType) {
+	call.CallOverrideFN(base, "callf", func(ctx context.Context, x types.MalType, f types.MalType) (types.MalType, error) {
+		return types.Apply(ctx, f, []types.MalType{x})
 	})
 }
 
